@@ -822,4 +822,243 @@ theorem opMultiply_agree (m : Nat) (a : Val) (c : Ctr) (hw : a.wf = true) (hp : 
             | .ok (v, c') => .ok (Interp.mallocCost r.1 v, v, c')) h1 h2 hK hcost
 
 
+/-! ### `concat` -/
+
+section atomsV
+variable {σ : Type}
+/-- like `gFold_atoms`, for a step whose state update looks at the argument value itself -/
+theorem gFold_atomsV (step : σ → Val → Except Err (Nat × σ)) (w : Bytes → Nat) (u : σ → Val → σ)
+    (hA : ∀ s b i, (Val.atom b i).wf = true → step s (.atom b i) = .ok (w b, u s (.atom b i))) :
+    ∀ (l : List Val) (bs : List Bytes), atomBytesOf l = some bs → (∀ x ∈ l, x.wf = true) →
+      ∀ (cost : Nat) (s : σ), gFold step l cost s = .ok (cost + sumW w bs, l.foldl u s) := by
+  intro l
+  induction l with
+  | nil =>
+    intro bs h _ cost s
+    simp only [atomBytesOf, Option.some.injEq] at h
+    subst h; rfl
+  | cons a t ih =>
+    intro bs h hw cost s
+    cases a with
+    | pair _ _ => simp [atomBytesOf] at h
+    | atom b i =>
+      simp only [atomBytesOf] at h
+      cases ht : atomBytesOf t with
+      | none => rw [ht] at h; simp at h
+      | some bt =>
+        rw [ht] at h
+        simp only [Option.map_some, Option.some.injEq] at h
+        subst h
+        simp only [gFold, hA s b i (hw _ (by simp))]
+        rw [ih bt ht (fun x hx => hw x (by simp [hx])), sumW_cons, List.foldl_cons, Nat.add_assoc]
+end atomsV
+
+def concatStep (s : Nat × List Val) (arg : Val) : Except Err (Nat × (Nat × List Val)) :=
+  match arg with
+  | .pair _ _ => .error (.InvalidOpArg "concat on list")
+  | .atom b _ =>
+    .ok (Gen.CONCAT_COST_PER_ARG + b.length * (Gen.CONCAT_COST_PER_BYTE + Gen.MALLOC_COST_PER_BYTE),
+      if b.length > 0 then (s.1 + b.length, arg :: s.2) else s)
+
+theorem concatLoop_eq (m : Nat) : ∀ (l : List Val) (cost ts : Nat) (terms : List Val),
+    concatLoop m l cost ts terms =
+      (gLoop m concatStep l cost (ts, terms)).map (fun r => (r.1, r.2.1, r.2.2.reverse)) := by
+  intro l
+  induction l with
+  | nil => intro cost ts terms; rfl
+  | cons a t ih =>
+    intro cost ts terms
+    cases a with
+    | pair _ _ => rfl
+    | atom b i =>
+      simp only [concatLoop, gLoop, concatStep, checkCost, Nat.add_assoc]
+      by_cases hc : cost + (Gen.CONCAT_COST_PER_ARG + b.length * (Gen.CONCAT_COST_PER_BYTE + Gen.MALLOC_COST_PER_BYTE)) > m
+      · simp only [hc, if_true]; rfl
+      · simp only [hc, if_false]
+        by_cases hb : b.length > 0
+        · simp only [hb, if_true]; exact ih _ _ _
+        · simp only [hb, if_false]; exact ih _ _ _
+
+/-- the non-empty atoms -/
+def nz (l : List Val) : List Val :=
+  l.filter (fun v => match v with | .atom b _ => decide (b.length > 0) | _ => false)
+
+/-- the bytes of a list of atoms, concatenated -/
+def catV : List Val → Bytes
+  | [] => []
+  | .atom b _ :: t => b ++ catV t
+  | .pair _ _ :: t => catV t
+
+def concatU (s : Nat × List Val) (arg : Val) : Nat × List Val :=
+  match arg with
+  | .atom b _ => if b.length > 0 then (s.1 + b.length, arg :: s.2) else s
+  | .pair _ _ => s
+
+theorem concat_fold : ∀ (l : List Val) (bs : List Bytes), atomBytesOf l = some bs → ∀ (ts : Nat) (terms : List Val),
+    l.foldl concatU (ts, terms) = (ts + sumLen bs, (nz l).reverse ++ terms) ∧ catV (nz l) = joinBytes bs ∧
+    (∀ x ∈ nz l, ∃ b i, x = Val.atom b i) := by
+  intro l
+  induction l with
+  | nil =>
+    intro bs h ts terms
+    simp only [atomBytesOf, Option.some.injEq] at h
+    subst h
+    exact ⟨rfl, rfl, by simp [nz]⟩
+  | cons a t ih =>
+    intro bs h ts terms
+    cases a with
+    | pair _ _ => simp [atomBytesOf] at h
+    | atom b i =>
+      simp only [atomBytesOf] at h
+      cases ht : atomBytesOf t with
+      | none => rw [ht] at h; simp at h
+      | some bt =>
+        rw [ht] at h
+        simp only [Option.map_some, Option.some.injEq] at h
+        subst h
+        by_cases hb : b.length > 0
+        · obtain ⟨h1, h2, h3⟩ := ih bt ht (ts + b.length) (Val.atom b i :: terms)
+          refine ⟨?_, ?_, ?_⟩
+          · simp only [List.foldl_cons, concatU, hb, if_true, h1, sumLen_cons, nz, List.filter_cons, decide_true,
+              List.reverse_cons, List.append_assoc, List.cons_append, List.nil_append, Nat.add_assoc]
+          · simp only [nz, List.filter_cons, hb, decide_true, if_true, catV, joinBytes_cons]
+            rw [← h2]; rfl
+          · intro x hx
+            simp only [nz, List.filter_cons, hb, decide_true, if_true, List.mem_cons] at hx
+            rcases hx with rfl | hx
+            · exact ⟨b, i, rfl⟩
+            · exact h3 x hx
+        · obtain ⟨h1, h2, h3⟩ := ih bt ht ts terms
+          have hb0 : b = [] := by cases b with | nil => rfl | cons _ _ => simp at hb
+          subst hb0
+          refine ⟨?_, ?_, ?_⟩
+          · simp only [List.foldl_cons, concatU, List.length_nil, Nat.lt_irrefl, if_false, h1, sumLen_cons, nz,
+              List.filter_cons, decide_false, Bool.false_eq_true, Nat.zero_add, gt_iff_lt]
+          · simp only [nz, List.filter_cons, List.length_nil, gt_iff_lt, Nat.lt_irrefl, decide_false,
+              Bool.false_eq_true, if_false, joinBytes_cons, List.nil_append]
+            exact h2
+          · intro x hx
+            simp only [nz, List.filter_cons, List.length_nil, gt_iff_lt, Nat.lt_irrefl, decide_false,
+              Bool.false_eq_true, if_false] at hx
+            exact h3 x hx
+theorem catFold (g : Except Err Bytes → Val → Except Err Bytes)
+    (hg : ∀ a b i, g (.ok a) (.atom b i) = .ok (a ++ b))
+    (L : List Val) (hL : ∀ x ∈ L, ∃ b i, x = Val.atom b i) : ∀ (acc : Bytes),
+    L.foldl g (.ok acc) = .ok (acc ++ catV L) := by
+  induction L with
+  | nil => intro acc; simp [catV]
+  | cons x t ih =>
+    intro acc
+    obtain ⟨b, i, rfl⟩ := hL x (by simp)
+    simp only [List.foldl_cons, catV, hg]
+    rw [ih (fun y hy => hL y (by simp [hy])), List.append_assoc]
+
+/-- `new_concat` on a list of atoms with the exact size -/
+theorem newConcat_cases (c : Ctr) (L : List Val) (hL : ∀ x ∈ L, ∃ b i, x = Val.atom b i)
+    (hw : ∀ x ∈ L, x.wf = true) :
+    (∃ v c', newConcat c (catV L).length L = .ok (v, c') ∧ v.erase = .atom (catV L) ∧ v.wf = true) ∨
+    (∃ e, newConcat c (catV L).length L = .error e ∧ isLimit e = true) := by
+  unfold newConcat Ctr.checkAtomLimit
+  by_cases hlim : (c.atoms == Gen.maxNumAtoms) = true
+  · right; exact ⟨.TooManyAtoms, by simp [hlim], rfl⟩
+  · simp only [hlim, Bool.false_eq_true, if_false]
+    by_cases hh : c.heap + (catV L).length > c.heapLimit
+    · right; exact ⟨.OutOfMemory, by simp [hh], rfl⟩
+    · left
+      simp only [hh, if_false]
+      match L, hL, hw with
+      | [], _, _ => exact ⟨_, _, rfl, rfl, rfl⟩
+      | [x], hL, hw =>
+        obtain ⟨b, i, rfl⟩ := hL x (by simp)
+        simp only [catV, List.append_nil, bne_self_eq_false, Bool.false_eq_true, if_false]
+        exact ⟨_, _, rfl, rfl, hw _ (by simp)⟩
+      | x :: y :: t, hL, _ =>
+        simp only
+        rw [catFold _ (fun _ _ _ => rfl) (x :: y :: t) hL []]
+        simp only [List.nil_append, bne_self_eq_false, Bool.false_eq_true, if_false]
+        exact ⟨_, _, rfl, rfl, rfl⟩
+
+theorem opConcat_agree (m : Nat) (a : Val) (c : Ctr) (hw : a.wf = true) (hp : Proper a) :
+    OpAgree m (Interp.opConcat 0 m a c) (Ref.opConcat a.erase) := by
+  have hwl := argList_wf hw
+  have href : Ref.opConcat a.erase = match atomBytesOf (argList a) with
+      | none => .error .arg
+      | some bs => Ref.mallocCost (bs.foldl (fun c _ => c + CONCAT_COST_PER_ARG) CONCAT_BASE_COST
+              + (bs.foldl (fun acc b => acc ++ b) []).length * CONCAT_COST_PER_BYTE)
+              (.atom (bs.foldl (fun acc b => acc ++ b) [])) := by
+    unfold Ref.opConcat
+    rw [atomsOf_proper hp]
+    dsimp only
+    rw [atomsOf_map_erase]
+    cases atomBytesOf (argList a) <;> rfl
+  rw [href]
+  have hmodel : Interp.opConcat 0 m a c =
+      thenK (gLoop m concatStep (argList a) Gen.CONCAT_BASE_COST (0, []))
+        (fun r => match newConcat c r.2.1 r.2.2.reverse with
+          | .error e => .error e
+          | .ok (v, c') => .ok (r.1, v, c')) := by
+    unfold Interp.opConcat
+    rw [concatLoop_eq]
+    simp only [thenK]
+    cases gLoop m concatStep (argList a) Gen.CONCAT_BASE_COST (0, []) with
+    | error e => rfl
+    | ok r => rfl
+  rw [hmodel]
+  have hA : ∀ (s : Nat × List Val) (b : Bytes) (i : Bool), (Val.atom b i).wf = true →
+      concatStep s (.atom b i) =
+        .ok ((fun b => Gen.CONCAT_COST_PER_ARG + b.length * (Gen.CONCAT_COST_PER_BYTE + Gen.MALLOC_COST_PER_BYTE)) b,
+          concatU s (.atom b i)) :=
+    fun _ _ _ _ => rfl
+  cases hab : atomBytesOf (argList a) with
+  | none =>
+    have hf : ∃ msg, gFold concatStep (argList a) Gen.CONCAT_BASE_COST (0, []) = .error (.InvalidOpArg msg) := by
+      have : ∀ (l : List Val), atomBytesOf l = none → ∀ cost s, ∃ msg, gFold concatStep l cost s = .error (.InvalidOpArg msg) := by
+        intro l
+        induction l with
+        | nil => intro h; simp [atomBytesOf] at h
+        | cons x t ih =>
+          intro h cost s
+          cases x with
+          | pair _ _ => exact ⟨_, rfl⟩
+          | atom b i =>
+            simp only [atomBytesOf] at h
+            cases ht : atomBytesOf t with
+            | some bt => rw [ht] at h; simp at h
+            | none => simp only [gFold, concatStep]; exact ih ht _ _
+      exact this _ hab _ _
+    obtain ⟨msg, hf⟩ := hf
+    dsimp only
+    exact OpAgree.of_loop_err (gLoop_err m _ _ _ _ _ hf) rfl
+  | some bs =>
+    have hf := gFold_atomsV _ _ _ hA (argList a) bs hab hwl Gen.CONCAT_BASE_COST (0, [])
+    obtain ⟨hfold, hcat, hatoms⟩ := concat_fold (argList a) bs hab 0 []
+    rw [hfold] at hf
+    obtain ⟨h1, h2⟩ := gLoop_ok m _ _ _ _ _ _ hf
+    dsimp only
+    rw [foldl_const, foldl_append_acc]
+    simp only [List.nil_append, Nat.zero_add, List.append_nil] at h1 h2 ⊢
+    have hlen := atomBytesOf_length _ _ hab
+    have hjl := joinBytes_length bs
+    have hcost : Gen.CONCAT_BASE_COST + sumW (fun b => Gen.CONCAT_COST_PER_ARG + b.length * (Gen.CONCAT_COST_PER_BYTE + Gen.MALLOC_COST_PER_BYTE)) bs
+        = CONCAT_BASE_COST + bs.length * CONCAT_COST_PER_ARG + (joinBytes bs).length * CONCAT_COST_PER_BYTE
+          + (joinBytes bs).length * MALLOC_COST_PER_BYTE := by
+      rw [sumW_linear, hjl]
+      simp only [Gen.CONCAT_BASE_COST, Gen.CONCAT_COST_PER_ARG, Gen.CONCAT_COST_PER_BYTE, Gen.MALLOC_COST_PER_BYTE,
+        CONCAT_BASE_COST, CONCAT_COST_PER_ARG, CONCAT_COST_PER_BYTE, MALLOC_COST_PER_BYTE]
+      omega
+    rw [hcost] at h1 h2
+    refine OpAgree.of_loop h1 h2 ?_ ?_
+    · simp only [List.reverse_reverse, Ref.mallocCost]
+      have hwn : ∀ x ∈ nz (argList a), x.wf = true := fun x hx => hwl x (List.mem_filter.1 hx).1
+      have hsz : sumLen bs = (catV (nz (argList a))).length := by rw [hcat, hjl]
+      rw [hsz]
+      rcases newConcat_cases c (nz (argList a)) hatoms hwn with ⟨v, c', hn, hv, hvw⟩ | ⟨e, hn, hl⟩
+      · rw [hn]
+        rw [hcat] at hv
+        exact OpAgree.ok hv hvw
+      · rw [hn]; exact Or.inr (Or.inr ⟨e, rfl, hl⟩)
+    · intro c0 t hc
+      simp only [Ref.mallocCost, Except.ok.injEq, Prod.mk.injEq] at hc
+      omega
+
 end Clvm.Ref
